@@ -77,6 +77,10 @@ class Oracle:
                 clause = "raw-exception" if not str(out.get("mod", "")).startswith("snowflake") else "error-class"
                 self.flag(clause, f"{clause}/{t}/{out.get('exc')}", {"op": op_brief(op), "outcome": out, "expected_errors": pred["errs"], "expected_class": want_cls})
                 return
+            if op["k"] == "exec" and want_cls != PG_ERR and out.get("cursor_sqlstate") not in (None, out.get("sqlstate")):
+                # the execute that just failed for another reason (closed connection) still reset the previous state
+                self.flag("sqlstate-attr", f"sqlstate-attr/stale-after-{out.get('exc')}/{t}", {"op": op_brief(op), "outcome": out})
+                return
             if op["k"] == "exec" and want_cls == PG_ERR and out.get("cursor_sqlstate") != out.get("sqlstate"):
                 self.flag("sqlstate-attr", f"sqlstate-attr/{t}", {"op": op_brief(op), "outcome": out})
                 return
